@@ -9,6 +9,7 @@ import (
 	"io/fs"
 	"io/ioutil"
 	"os"
+	"path/filepath"
 	"reflect"
 	"runtime"
 	"strings"
@@ -259,10 +260,21 @@ func writeReader(path string, r io.Reader, perms fs.FileMode, compress bool) (er
 		path = fmt.Sprintf("%s%s", path, compressedExtension)
 	}
 
-	if out, err = os.OpenFile(path, os.O_CREATE|os.O_TRUNC|os.O_RDWR, perms); err != nil {
+	// we write to a temporary file that we rename once fully written, so that
+	// a crash (or an error) in the middle of a write never leaves a truncated
+	// file behind. The temporary name starts with a dot not to be taken for
+	// an object file.
+	dir, name := filepath.Split(path)
+	if out, err = os.CreateTemp(dir, fmt.Sprintf(".%s.tmp", name)); err != nil {
 		return
 	}
-	defer out.Close()
+	tmp := out.Name()
+	defer func() {
+		out.Close()
+		if err != nil {
+			os.Remove(tmp)
+		}
+	}()
 
 	// default value for writer
 	w = out
@@ -270,13 +282,22 @@ func writeReader(path string, r io.Reader, perms fs.FileMode, compress bool) (er
 		if w, err = gzip.NewWriterLevel(out, gzip.BestSpeed); err != nil {
 			return
 		}
-		defer w.Close()
 	}
 
 	if _, err = io.Copy(w, r); err != nil {
 		return
 	}
 
-	return w.Close()
+	if err = w.Close(); err != nil {
+		return
+	}
 
+	// in case of compression out is not closed yet
+	out.Close()
+
+	if err = os.Chmod(tmp, perms); err != nil {
+		return
+	}
+
+	return os.Rename(tmp, path)
 }
